@@ -48,6 +48,13 @@ def template_discharges(F):
         ok2, cov2 = c13.check_truncate(probe, F, None, True)
         if ok2 and not probe.failed:
             covered.update(cov2)
+    # the skipping wrapper: a guarded String::from
+    skip_fn = F.fn(c13.names(F)[1])
+    if skip_fn is not None:
+        p2 = Probe()
+        cov3 = c13.check_skip(p2, F, None, skip_fn)
+        if cov3 and not p2.failed:
+            covered.update(cov3)
     return covered, probe.failed
 
 
@@ -72,6 +79,8 @@ def run(ctx):
                 "webauthn::floor_char_boundary": f_fn, "webauthn::is_utf8_char_boundary": p_fn}
         for d0 in EXPECTED_HANDWRITTEN:
             d = role.get(d0, d0)
+            if d0 == "webauthn::is_utf8_char_boundary" and F.fn(d) is None:
+                continue        # floor may test boundaries with core's str::is_char_boundary instead of a private copy
             ctx.oblige("C04|reachable|" + d0, d in defs, "%s is no longer reachable from Request::deserialize (renamed? the obligation scan would miss its replacement)" % d, cfg=cfg, nontrivial=False)
         covered, why = template_discharges(F)
         used = {}
@@ -83,19 +92,19 @@ def run(ctx):
             key = "C04|obligation|%s|%s" % (d, kind)
             discharged = False
             rule = None
-            if d in (f_fn, t_fn):
+            if covered:
                 # the MIR event's span lies inside (or equals) the span of a construct the template covers
                 from .oblig_mono import _sp
                 want = _sp(ev.get("sp"))
                 for csp, reason in covered.items():
                     have = _sp(csp)
                     if want and have and have[0] == want[0] and have[1] <= want[1] and want[2] <= have[2]:
-                        discharged, rule = True, "B-tmpl(floor): " + reason
+                        discharged, rule = True, "B-tmpl(C13): " + reason
                         break
             if not discharged:
                 from . import oblig_rules as OR
                 g_rule, g_detail = OR.discharge(F, inst, ev, kind)
-                if g_rule in ("B-const-arith", "B-shift-lit", "B-full-range", "B-enum-cast"):
+                if g_rule in ("B-const-arith", "B-shift-lit", "B-full-range", "B-enum-cast", "B-concrete"):
                     discharged, rule = True, "%s: %s" % (g_rule, g_detail)
             if kind.startswith("static") and not ev.get("mutable"):
                 discharged, rule = True, "immutable static"
@@ -129,6 +138,12 @@ def run(ctx):
                     problems, _n = L.drains(F, fn)
                     good = not problems
                     why = "; ".join(problems[:2])
+                    if not good and x.get("sp") in covered:
+                        good = True     # a loop the C13 template accounts for (the step-back search of floor_char_boundary)
+                    if not good:
+                        # a counting loop over constants (`while i < N { ..; i += 1 }`): it runs concretely and ends within sym's limit
+                        from . import oblig_rules as OR
+                        good = OR.concrete_summary(F, fn) is not None
                 ctx.oblige("C04|loop|%s" % fn["path"], good, "a loop in %s is not an input-consuming loop over next_key()/next_element() (%s): termination is not evident" % (fn["path"], why), cfg=cfg, where=H.line(x))
         ctx.floor("input-consuming loops", n_loops, 15, cfg=cfg)
         # every other public decodable type (responses, options, enums ... decoded with cbor_deserialize::<T>): their
